@@ -1458,11 +1458,7 @@ type nsStmtInfo struct {
 
 func monitorNs(c *nsCase, r nsRun, out *Out, cs string) {
 	if r.Class == "panic" {
-		tag := "[ns-panic]"
-		if strings.Contains(r.PanicMsg, "nil pointer") && nsHasSecondBalance(c) {
-			tag = "[nil-balance-panic]"
-		}
-		out.Violation("C27", cs, "compiler.Compile + vm.Machine panicked: "+r.PanicMsg+" "+tag)
+		out.Violation("C27", cs, "compiler.Compile + vm.Machine panicked: "+r.PanicMsg+" [ns-panic]")
 		return
 	}
 	if r.Class == "timeout" {
@@ -1481,9 +1477,6 @@ func monitorNs(c *nsCase, r nsRun, out *Out, cs string) {
 	if i, err := lp.Validate(); err != nil {
 		p := r.Posts[i]
 		tag := "[ns-illformed-posting]"
-		if !assets.IsValid(p.Asset) && accounts.ValidateAddress(p.Src) && accounts.ValidateAddress(p.Dst) && p.Amt.Sign() >= 0 && nsLiteralAsset(c, p.Asset) {
-			tag = "[literal-asset-not-validated]"
-		}
 		out.Violation("C28", cs, fmt.Sprintf("posting %d (%s -> %s, %s %s) of a successful script run fails Postings.Validate: %v %s", i, p.Src, p.Dst, p.Asset, p.Amt, err, tag))
 	}
 	// ---- C22 (a): non-negative
@@ -1686,16 +1679,6 @@ func monitorNs(c *nsCase, r nsRun, out *Out, cs string) {
 	}
 }
 
-func nsHasSecondBalance(c *nsCase) bool {
-	n := 0
-	for _, d := range c.Decls {
-		if d.Origin == "bal" {
-			n++
-		}
-	}
-	return n >= 2
-}
-func nsLiteralAsset(c *nsCase, a string) bool { return strings.Contains(c.sx(), "(slit "+Q(a)+")") }
 
 // shared subset for the interpreter comparison (C26): no monetary arithmetic results that the machine treats
 // specially is assumed; everything the generator emits is valid syntax for both
@@ -1709,9 +1692,6 @@ func monitorC26(c *nsCase, script string, out *Out, cs string) {
 	}{{"machine", m}, {"interpreter", i}} {
 		if x.r.Class == "panic" || x.r.Class == "timeout" {
 			tag := "[ns-adapter-" + x.r.Class + "]"
-			if x.n == "machine" && strings.Contains(x.r.Err, "nil pointer") && nsHasSecondBalance(c) {
-				tag = "[nil-balance-panic]"
-			}
 			out.Violation("C27", cs, fmt.Sprintf("%s runtime adapter: %s %s %s", x.n, x.r.Class, x.r.Err, tag))
 		}
 		if x.r.Partial {
@@ -1932,11 +1912,7 @@ func cmdNsFront(args []string) int {
 		cs := L("front", Q(kind), Q(script))
 		out.Case(cs, L(res.Class))
 		if res.Class == "panic" {
-			tag := "[front-panic]"
-			if strings.Contains(res.PanicMsg, "nil pointer") && strings.Count(script, "balance(") >= 2 {
-				tag = "[nil-balance-panic]"
-			}
-			out.Violation("C27", cs, "panic on "+kind+" input: "+res.PanicMsg+" "+tag)
+			out.Violation("C27", cs, "panic on "+kind+" input: "+res.PanicMsg+" [front-panic]")
 		} else if res.Class == "timeout" {
 			out.Violation("C27", cs, "no answer within 5s on "+kind+" input [front-hang]")
 		} else if res.Class == "ok" {
